@@ -95,6 +95,9 @@ type Chan struct {
 	offer       Value
 	taken       bool
 	recvWaiting int
+	vcs         []vclock // clocks travelling with buffered messages (race detection)
+	offerVC     vclock
+	closeVC     vclock
 	// goroutines blocked
 	recvq []*waiter
 	sendq []*waiter
